@@ -1,7 +1,9 @@
 (* The code-shape parameters of the models, instantiated from the facts gosrc2v regenerates from
    the Go source on every run. *)
 From Coq Require Import List NArith ZArith Bool.
-From GP Require Import Generated Model.Handshake Model.Stderr Model.Env.
+From Coq Require Import String.
+Import ListNotations.
+From GP Require Import Generated Model.Handshake Model.Stderr Model.Env Model.MuxBroker.
 
 Definition gen_hs_params : hs_params :=
   {| hp_core := core_protocol_version;
@@ -21,3 +23,18 @@ Definition gen_env_params : env_params :=
      ep_mux_key := env_multiplex_grpc;
      ep_group_key := env_unix_socket_group;
      ep_dir_key := env_unix_socket_dir |}.
+
+(* look a select statement up in the generated table *)
+Fixpoint sel_lookup (tbl : list (string * nat * sel)) (f : string) (i : nat) : option sel :=
+  match tbl with
+  | [] => None
+  | (f', i', x) :: r => if (String.eqb f f' && Nat.eqb i i')%bool then Some x else sel_lookup r f i
+  end.
+
+Definition gen_mux_params : MuxBroker.params :=
+  {| drain_has_default :=
+       match sel_lookup select_table "mux_timeoutwait"%string 1 with
+       | Some x => sel_default x
+       | None => false
+       end;
+     run_closes_dropped := mux_run_closes_dropped |}.
